@@ -132,6 +132,9 @@ DEFS = [
     struct("GenNeeds", [field("item", U8, param="T", needs=True), field("count", U8, default="trait")], error="RecErr"),
     struct("GenWhere", [field("first_item", ("vec", BOOL), param="T"), field("other", ("opt", U8), param="U")], rename_all="camelCase", deny="default"),
     enum("GenEnum", [variant("Unit"), variant("Holds", [field("inner", U8, param="T", needs=True)])], tag="kind", error="RecErr"),
+    # validate returning the container's own error type
+    struct("FValidateOwn", [field("a", U8), field("b", BOOL, default="trait")], error="RecErr", validate="own"),
+    enum("EValidateOwn", [variant("A"), variant("B", [field("x", U8)])], tag="t", error="RecErr", validate="own"),
     struct("FNest", [field("inner", ("ref", "FTry")), field("list", ("vec", ("ref", "FValidate"))), field("cf", ("ref", "CTry"))], error="RecErr"),
 ]
 
@@ -163,6 +166,6 @@ ENTRIES = [
     ("vec", ("cs", "String")), ("hset", ("opt", U8)),
     ("ref", "FFrom"), ("ref", "FTry"), ("ref", "FTryF"), ("ref", "FMap"), ("ref", "FValidate"), ("ref", "FMissing"), ("ref", "FDenyFn"), ("ref", "FAll"),
     ("ref", "GTry"), ("ref", "GEnum"), ("ref", "GCTry"), ("vec", ("ref", "GTry")),
-    ("ref", "GenNeeds"), ("ref", "GenWhere"), ("ref", "GenEnum"), ("vec", ("ref", "GenNeeds")),
+    ("ref", "FValidateOwn"), ("ref", "EValidateOwn"), ("ref", "GenNeeds"), ("ref", "GenWhere"), ("ref", "GenEnum"), ("vec", ("ref", "GenNeeds")),
     ("ref", "CFrom"), ("ref", "CFromV"), ("ref", "CTry"), ("ref", "EValidate"), ("ref", "EUnitValidate"), ("ref", "FNest"), ("vec", ("ref", "FTry")),
 ]
